@@ -24,6 +24,8 @@ EXPLANATION = (
     "appends the curve point's matching coordinate, and that list feeds min/max of that axis. The end-point-only shortcut "
     "of Arc.bbox may be taken only when the extent is zero (a full turn also has coincident end points). Not decided: "
     "containment and tightness for arcs (candidate angles are value dependent) and cubics near the 1e-8 threshold."
+    " R08.7: with_stroke grows the box by half the implicit stroke width; C14's paint rules (R14.5: width x"
+    ' sqrt|det|) run here as well.'
 )
 TECHNIQUE = (
     "static analysis (no execution): ordered-box lint over every returned 4-tuple; stroke growth and Bezier extremum candidates by partial evaluation over finite scenarios with exact canonical forms; interval argument for the arc candidate range"
